@@ -180,17 +180,24 @@ def run_analytic(case, counters, viol, nontrivial):
     if sampler == "blackjax_smc":
         cfg["n"] = int(g.integers(8, 20))
     nan_above = None
+    if sampler == "smc" and g.random() < 0.2:
+        # a schedule truncated by the step cap, followed by the final enlargement: the enlarged population is at beta = 1
+        nst = int(g.integers(3, 7))
+        cfg["opts"] = {"adaptive": False, "n_steps": nst, "max_n_steps": int(g.integers(1, nst)), "n_final_samples": cfg["n"] + int(g.integers(2, 12))}
+        capped_final = True
+    else:
+        capped_final = False
     if sampler in ("smc", "emcee_smc") and g.random() < 0.3:
         c0 = t.coords[0]
         nan_above = c0.lo + 0.8 * (c0.hi - c0.lo)
     probe = NanProbe(t, nan_above)
-    if g.random() < 0.3:
+    if g.random() < 0.3 and not capped_final:
         cfg["opts"] = {"adaptive": False, "n_steps": int(g.integers(2, 6))}
     smc = sampler.endswith("smc")
     if not smc:
         cfg["opts"] = {}
     tsig = f"{cfg['precond']['preconditioning']}{sorted(cfg['precond']['kwargs'].items())}|per={bool(t.periodic_parameters)}"
-    where = f"sampler={sampler} xp={xpn} precond={cfg['precond']} target={t.describe()['coords']} nan_above={nan_above}"
+    where = f"sampler={sampler} xp={xpn} opts={cfg.get('opts')} precond={cfg['precond']} target={t.describe()['coords']} nan_above={nan_above}"
     t_, a, probe = recorded.build(cfg, probe=probe)
     J = Judge(a, t, probe, counters, viol, where, smc=smc)
     rec = smcrun.Recorder(abort_on_stall=True, keep_vectors=False)
